@@ -2,6 +2,7 @@ import XsVerif.Driver.Util
 import XsVerif.Model.Paths
 import XsVerif.Model.Localise
 import XsVerif.Model.PathsNs
+import XsVerif.Model.FixedCC
 open Lean XsVerif.Driver XsVerif.Paths
 
 namespace XsVerif.Driver.C19
@@ -147,6 +148,19 @@ def handleNsPath (j : Json) : Except String Json := do
       Json.mkObj [("path", text), ("sel", sel)]
   return Json.mkObj [("r", Json.arr out.toArray)]
 
+/-- `{"op":"fixedcc","fixed":s,"els":[[text or null, number of children],…]}`: per element whether the ported decision
+    of XsdElement.raw_decode raises "must have the fixed value" (Model/FixedCC.lean `libErr`) -/
+def handleFixedCC (j : Json) : Except String Json := do
+  let fixed ← getStr j "fixed"
+  let els ← (← getArr j "els").toList.mapM fun p => do
+    let a ← p.getArr?
+    let t : Option String := match a[0]! with
+      | .str s => some s
+      | _ => none
+    let k ← a[1]!.getNat?
+    pure ({ text := t, kids := k } : XsVerif.FixedCC.El)
+  return Json.mkObj [("r", Json.arr (els.map fun e => Json.bool (XsVerif.FixedCC.libErr fixed e)).toArray)]
+
 /-- request: a tree and a list of positions; answer per position: the path text and what it selects -/
 def handle (j : Json) : Except String Json := do
   if (j.getObjVal? "render").toOption.isSome then return ← handleRender j
@@ -154,6 +168,7 @@ def handle (j : Json) : Except String Json := do
   | .ok "localise" => return ← handleLocalise j
   | .ok "lazy" => return ← handleLazy j
   | .ok "nspath" => return ← handleNsPath j
+  | .ok "fixedcc" => return ← handleFixedCC j
   | _ => pure ()
   let t ← parseT (← j.getObjVal? "tree")
   let ps ← (← getArr j "pos").toList.mapM fun p => do
